@@ -11,6 +11,7 @@ import (
 	"runtime"
 	"sort"
 	"strings"
+	"unicode"
 	"unicode/utf8"
 
 	"golang.org/x/tools/go/ssa"
@@ -444,6 +445,11 @@ func (m *Machine) intercept(fn *ssa.Function, args []Val, caller *frame, site ss
 			return nil
 		}
 	}
+	if strings.HasPrefix(name, "unicode.") {
+		if h := m.unicodeIntercept(name, args); h != nil {
+			return h
+		}
+	}
 	if strings.HasPrefix(name, "strings.") || strings.HasPrefix(name, "unicode/utf8.") || strings.HasPrefix(name, "unicode.") || strings.HasPrefix(name, "strconv.") {
 		if h := m.stringIntercept(fn, name, args); h != nil {
 			return h
@@ -845,10 +851,12 @@ func (m *Machine) stringIntercept(fn *ssa.Function, name string, args []Val) han
 		if s := args[0].(*StrV); s.P != nil {
 			return func() Val { return m.mapPick(s, strings.ToUpper) }
 		}
+		return func() Val { return m.caseSym(args[0].(*StrV), true) }
 	case "strings.ToLower":
 		if s := args[0].(*StrV); s.P != nil {
 			return func() Val { return m.mapPick(s, strings.ToLower) }
 		}
+		return func() Val { return m.caseSym(args[0].(*StrV), false) }
 	case "strings.ToTitle":
 		if s := args[0].(*StrV); s.P != nil {
 			return func() Val { return m.mapPick(s, strings.ToTitle) }
@@ -911,6 +919,120 @@ func (m *Machine) titleSym(s *StrV) Val {
 			start = Not(isLetterOrDigit(bs[i-1]))
 		}
 		out[i] = Ite(And(lower, start), BinBV("bvsub", b, BV(8, 32)), b)
+	}
+	return strFromBytes(out, s.T)
+}
+
+// unicodeIntercept: predicates and case mappings of package unicode on a rune.
+// Concrete runes use the native function; a symbolic rune that depends on one
+// byte-sized variable is tabulated over that variable's values.
+func (m *Machine) unicodeIntercept(name string, args []Val) handler {
+	var pred func(rune) bool
+	var mapf func(rune) rune
+	switch name {
+	case "unicode.IsUpper":
+		pred = unicode.IsUpper
+	case "unicode.IsLower":
+		pred = unicode.IsLower
+	case "unicode.IsLetter":
+		pred = unicode.IsLetter
+	case "unicode.IsDigit":
+		pred = unicode.IsDigit
+	case "unicode.IsNumber":
+		pred = unicode.IsNumber
+	case "unicode.IsSpace":
+		pred = unicode.IsSpace
+	case "unicode.IsPunct":
+		pred = unicode.IsPunct
+	case "unicode.IsTitle":
+		pred = unicode.IsTitle
+	case "unicode.IsPrint":
+		pred = unicode.IsPrint
+	case "unicode.IsSymbol":
+		pred = unicode.IsSymbol
+	case "unicode.IsControl":
+		pred = unicode.IsControl
+	case "unicode.IsGraphic":
+		pred = unicode.IsGraphic
+	case "unicode.ToUpper":
+		mapf = unicode.ToUpper
+	case "unicode.ToLower":
+		mapf = unicode.ToLower
+	case "unicode.ToTitle":
+		mapf = unicode.ToTitle
+	default:
+		return nil
+	}
+	if len(args) != 1 {
+		return nil
+	}
+	t, ok := args[0].(*Term)
+	if !ok {
+		return nil
+	}
+	f := func(x uint64) uint64 {
+		r := rune(int32(uint32(x)))
+		if pred != nil {
+			if pred(r) {
+				return 1
+			}
+			return 0
+		}
+		return uint64(uint32(mapf(r)))
+	}
+	outW := 0
+	if mapf != nil {
+		outW = 32
+	}
+	if t.IsConst() {
+		return func() Val {
+			if outW == 0 {
+				return Bool(f(t.C) == 1)
+			}
+			return BV(32, f(t.C))
+		}
+	}
+	v := singleByteVar(t)
+	if v == nil {
+		return func() Val { m.unmodelled("%s on a symbolic rune", name); return nil }
+	}
+	return func() Val {
+		mod := Model{}
+		n := 1 << uint(v.W)
+		if outW == 0 {
+			r := tFalse
+			for i := 0; i < n; i++ {
+				mod[v.Name] = uint64(i)
+				if f(t.Eval(mod)) == 1 {
+					r = Or(r, Eq(v, BV(v.W, uint64(i))))
+				}
+			}
+			return r
+		}
+		ts := make([]*Term, n)
+		for i := 0; i < n; i++ {
+			mod[v.Name] = uint64(i)
+			ts[i] = BV(32, f(t.Eval(mod)))
+		}
+		return selectTerm(v, ts)
+	}
+}
+
+// caseSym models strings.ToUpper / ToLower on ASCII-assumed symbolic bytes.
+func (m *Machine) caseSym(s *StrV, upper bool) Val {
+	bs := s.Bytes()
+	out := make([]*Term, len(bs))
+	for i, b := range bs {
+		if !m.branch(Cmp("bvult", b, BV(8, 0x80)), "case mapping: ascii byte") {
+			m.unmodelled("strings.ToUpper/ToLower on symbolic non-ASCII bytes")
+		}
+		if upper {
+			lower := And(Cmp("bvule", BV(8, 'a'), b), Cmp("bvule", b, BV(8, 'z')))
+			out[i] = Ite(lower, BinBV("bvsub", b, BV(8, 32)), b)
+		} else {
+			up := And(Cmp("bvule", BV(8, 'A'), b), Cmp("bvule", b, BV(8, 'Z')))
+			out[i] = Ite(up, BinBV("bvadd", b, BV(8, 32)), b)
+		}
 	}
 	return strFromBytes(out, s.T)
 }
